@@ -264,6 +264,8 @@ def r16_8(ctx):
 
 
 def run(ctx):
+    ctx.rule("R16.11", "the prefixes xml and xmlns are fixed: insert_ns never stores a binding for them")
+    ctx.guard("R16.11", "fixed-prefixes", lambda: r16_11(ctx))
     ctx.rule("R16.10", "an attribute is a namespace declaration iff its prefix is xmlns or it is the unprefixed attribute xmlns (all six (prefix, local) points of both filter predicates of process_namespaces, read from the syntax tree); the declaring and the binding pass are complements")
     from . import nsdecl
     ctx.guard("R16.10", "declaration-predicates", lambda: nsdecl.declaration_predicates(ctx, "R16.10"))
@@ -327,3 +329,25 @@ def run(ctx):
                 ctx.ob("R16.5", "tokenizer/fn=%s" % fn, True, "equals the reference")
 
     ctx.guard("R16.5", "nf-tokenizer", tok)
+
+
+def r16_11(ctx):
+    """the prefixes xml and xmlns are fixed: no path of insert_ns records a binding for the key Some(local) unless, for an
+    xmlns:-prefixed declaration, it has found the local name to be neither "xml" nor "xmlns" (xmlns:xml="other" and
+    xmlns:xml="" are refused, never stored; xmlns:xml="<the XML namespace>" is accepted and stores nothing)"""
+    key, pcs = nfq.cells(ctx, TB, "::insert_ns")
+    bad = None
+    n = 0
+    for pc in nfq.feasible(pcs):
+        ins = [args for a, args in pc["actions"] if str(a).endswith("scope.insert") and args and str(args[0]).startswith("Some(")]
+        if not ins:
+            continue
+        g = pc["guards"]
+        if not any(v is True and re.fullmatch(r"p1\.name\.prefix matches Some\(atom:xmlns\)(#\d+)?", k) for k, v in g.items()):
+            continue  # infeasible combination for a prefixed key, or an unprefixed xmlns (key None)
+        n += 1
+        for nm in ("xml", "xmlns"):
+            vals = [v for k, v in g.items() if re.fullmatch(r'p1\.name\.local matches "%s"(#\d+)?' % nm, k)]
+            if not vals or any(vals):
+                bad = bad or 'a binding is stored for an xmlns:-prefixed declaration without having excluded the local name "%s": xmlns:%s="urn:other" re-binds a fixed prefix' % (nm, nm)
+    ctx.ob("R16.11", "fixed-prefixes-never-stored", bad is None and n >= 2, bad or "%d storing paths for xmlns:-prefixed declarations, each after excluding xml and xmlns" % n, "xml5ever tree_builder NamespaceMap::insert_ns")
